@@ -283,3 +283,7 @@ mod tests {
         assert_eq!(header, header2);
     }
 }
+
+// verification hook: harness text lives outside the repository (see MANIFEST.hooks)
+#[cfg(any(kani, sudachi_verif))]
+include!(concat!(env!("SUDACHI_VERIF_DIR"), "/dic__header.rs"));
